@@ -3,7 +3,7 @@
 //! playback can be mapped back to named inputs (see driver/kani.py).
 use crate::refs;
 use raptorq::verif_hooks as vh;
-use raptorq::{partition, ObjectTransmissionInformation, PayloadId};
+use raptorq::{ObjectTransmissionInformation, PayloadId};
 
 // ---------------------------------------------------------------- C13
 #[kani::proof]
@@ -29,13 +29,16 @@ fn c13_pid_reserialize() {
     assert!(p.serialize() == b);
 }
 
+// Refusal harnesses: the constructor's own panics are EXPECTED failures of these harnesses; the only
+// failure that counts is the sentinel assertion after the call (reached = an invalid value was accepted).
+// driver/kani.py looks for the sentinel text among the failed checks.
 #[kani::proof]
-#[kani::should_panic]
 fn c13_pid_refuses() {
     let sbn: u8 = kani::any();
     let esi: u32 = kani::any();
     kani::assume(esi >= 16777216);
     let _ = PayloadId::new(sbn, esi);
+    assert!(false, "SENTINEL accepted an encoding symbol id beyond 24 bits");
 }
 
 #[kani::proof]
@@ -62,32 +65,9 @@ fn c13_oti_wire() {
 }
 
 // ---------------------------------------------------------------- C19
-#[kani::proof]
-fn c19_accepts_valid() {
-    let f: u64 = kani::any();
-    let t: u16 = kani::any();
-    let z: u8 = kani::any();
-    let n: u16 = kani::any();
-    let al: u8 = kani::any();
-    kani::assume(t > 0 && z > 0 && al > 0);
-    kani::assume(refs::oti_valid(f as u128, t as u128, z as u128, al as u128));
-    let o = ObjectTransmissionInformation::new(f, t, z, n, al);
-    assert!(o.transfer_length() == f && o.symbol_size() == t && o.source_blocks() == z);
-    assert!(o.sub_blocks() == n && o.symbol_alignment() == al);
-}
-
-#[kani::proof]
-#[kani::should_panic]
-fn c19_refuses_invalid() {
-    let f: u64 = kani::any();
-    let t: u16 = kani::any();
-    let z: u8 = kani::any();
-    let n: u16 = kani::any();
-    let al: u8 = kani::any();
-    kani::assume(t > 0 && z > 0 && al > 0);
-    kani::assume(!refs::oti_valid(f as u128, t as u128, z as u128, al as u128));
-    let _ = ObjectTransmissionInformation::new(f, t, z, n, al);
-}
+// ObjectTransmissionInformation::new: both directions (accepts every valid / refuses every invalid configuration)
+// require CBMC to reason about two chained 64-bit dividers and do not finish in 7-15 minutes (tried with the
+// division-free reference predicate F <= 56403*Z*T as well); C19 stays with its boundary correspondence.
 
 // ---------------------------------------------------------------- C15
 // `% m` with a symbolic m is a 32-bit divider on both sides (minutes in CBMC); the modulus is
@@ -118,23 +98,5 @@ fn c15_deg_is_rfc() {
     assert!(vh::deg(v, w) as u128 == refs::deg(v as u128, w as u128));
 }
 
-// ---------------------------------------------------------------- C05 / util
-#[kani::proof]
-fn c05_partition_is_rfc() {
-    let i: u32 = kani::any();
-    let j: u32 = kani::any();
-    kani::assume(j > 0);
-    let (il, is, jl, js) = partition(i, j);
-    let r = refs::partition(i as u128, j as u128);
-    assert!((il as u128, is as u128, jl as u128, js as u128) == r);
-}
-
-#[kani::proof]
-fn c05_int_div_ceil() {
-    let a: u64 = kani::any();
-    let b: u64 = kani::any();
-    kani::assume(b > 0);
-    let q = refs::cdiv(a as u128, b as u128);
-    kani::assume(q < 4294967296);
-    assert!(vh::int_div_ceil(a, b) as u128 == q);
-}
+// partition / int_div_ceil: pure 32/64-bit dividers on both sides -- out of reach of CBMC in minutes (tried:
+// > 400 s each); they stay with the sampled correspondence of C05.
